@@ -103,7 +103,7 @@ TRI_DATA = {
 def hdrsize_class(v):
     """class of a BlobHeader length by its 4-byte big-endian encoding: does one of the length bytes have the top bit set"""
     v = int(v)
-    return "a-length-byte>=0x80" if (v & 0x80) or (v & 0x8000) else None
+    return "length-byte-with-top-bit-set" if (v & 0x80) or (v & 0x8000) else None
 
 
 class Std(Family):
@@ -353,10 +353,10 @@ def plan_pbf(fam, tier):
         for ds in ["basic", "history"]:
             src.append(product(fam, PBF_CORE, {"ds": ds}))
     else:
-        # full product of every block-level choice on the two main data sets, of a reduced core on six more, and of the
-        # framing choices; every BlobHeader size up to the limit
-        for ds in ["basic", "history"]:
-            src.append(product(fam, PBF_BLOCK, {"ds": ds}))
+        # full product of every block-level choice on the main data set (331776 combinations), of ten of the twelve on the
+        # history data set, of a reduced core on seven more, and of the framing choices; every BlobHeader size up to the limit
+        src.append(product(fam, PBF_BLOCK, {"ds": "basic"}))
+        src.append(product(fam, [d for d in PBF_BLOCK if d not in ("defaults", "dense_kv")], {"ds": "history"}))
         for ds in ["nometa", "anon", "mixed", "strings", "single_full", "extremes", "waylocs"]:
             src.append(product(fam, PBF_CORE + ["stringtable", "dense_kv"], {"ds": ds}))
         for ds in ["basic", "history"]:
